@@ -103,7 +103,7 @@ def native_replay(unit, inputs, workdir, repo):
         return None, 'replay driver %s missing' % src
     exe = os.path.join(workdir, 'replay_' + unit.replay)
     if not os.path.exists(exe):
-        cmd = ['g++', '-std=c++11', '-O0', '-g', '-w', '-fsanitize=address,undefined', '-fno-sanitize-recover=all',
+        cmd = ['g++', '-std=c++11', '-O0', '-g', '-w', '-DNDEBUG', '-fsanitize=address,undefined', '-fno-sanitize-recover=all',
                '-fsanitize=float-cast-overflow',
                '-I', os.path.join(repo, 'src'), '-I', os.path.join(repo, '_build', 'src'),
                '-I', os.path.join(repo, 'src', 'xalanc', 'PlatformSupport'),
